@@ -837,6 +837,44 @@ func ruleWIN3(c *Checker, sl *ssa.Function) {
 		c.decide(!skipped, "WIN-3", "resend|every slot between base and top is retransmitted", instrPos(resendCall), "each iteration of the resend loop passes the transmission",
 			"the resend loop can go on to the next slot without transmitting the current one: a skipped packet is never repaired")
 	}
+	// the walk ends at the top snapshot and nowhere else: the loop is left from its head exactly when
+	// i == top, and otherwise only after a transmission (the error return)
+	if idx != nil && resendCall != nil {
+		head := idx.Block()
+		inLoop := func(b *ssa.BasicBlock) bool {
+			return b == head || (head.Dominates(b) && pathFromBlockEntryToBlock(b, head, nil))
+		}
+		isTopSnap := func(v ssa.Value) bool { return isLoadOfField(v, fTop) }
+		okB, whyB := true, ""
+		nBody := 0
+		for _, sct := range head.Succs {
+			f, okf := edgeFact(head, sct)
+			rel := ""
+			if okf {
+				rel = factRel(f, isValue(ssa.Value(idx)), isTopSnap)
+			}
+			switch {
+			case inLoop(sct) && rel == "!=":
+				nBody++
+			case !inLoop(sct) && rel == "==":
+			default:
+				okB, whyB = false, "the loop head does not test i != top (found '"+rel+"')"
+			}
+		}
+		okB = okB && nBody == 1
+		for _, b := range resend.Blocks {
+			if b == head || !inLoop(b) {
+				continue
+			}
+			for _, sct := range b.Succs {
+				if !inLoop(sct) && !(resendCall.Block() == b || resendCall.Block().Dominates(b)) {
+					okB, whyB = false, "the loop can be left before the current slot was transmitted"
+				}
+			}
+		}
+		c.decide(okB, "WIN-3", "resend|the walk ends exactly at the top snapshot", instrPos(resendCall), "loop continues while i != top, left otherwise only after a transmission",
+			"the resend loop does not run exactly until the index reaches the top snapshot (a wrapped window is not retransmitted, or the walk stops early): "+whyB)
+	}
 	okR := idx != nil
 	why := "the packet retransmitted is not content[i] with i the loop index"
 	if okR {
@@ -855,7 +893,7 @@ func ruleWIN3(c *Checker, sl *ssa.Function) {
 		okR = okR && nInit == 1 && nStep >= 1
 	}
 	c.decide(okR, "WIN-3", "resend|walks base..top by (i+1) % s sending content[i]", resend.Pos(), "resend retransmits exactly content[i] for i = base, base+1, ... (mod s)", why)
-	c.floor("WIN-3", 7)
+	c.floor("WIN-3", 8)
 }
 
 // ---------------------------------------------------------------------------
